@@ -817,7 +817,12 @@ impl<'tcx> Cx<'tcx> {
             r.push(J::s(format!("align({})", a.bytes())));
         }
         let mut vars = Vec::new();
-        for v in adt.variants() {
+        let discrs: Vec<u128> = if adt.is_enum() {
+            adt.discriminants(tcx).map(|(_, d)| d.val).collect()
+        } else {
+            Vec::new()
+        };
+        for (vi, v) in adt.variants().iter().enumerate() {
             let mut fs = Vec::new();
             for f in &v.fields {
                 let ft = tcx.type_of(f.did).instantiate_identity().skip_norm_wip();
@@ -828,7 +833,11 @@ impl<'tcx> Cx<'tcx> {
                     ("vis", J::s(if f.vis.is_public() { "pub".to_string() } else { "priv".to_string() })),
                 ]));
             }
-            vars.push(J::obj(vec![("name", J::s(v.name.to_string())), ("fields", J::Arr(fs))]));
+            let mut vk = vec![("name", J::s(v.name.to_string())), ("fields", J::Arr(fs))];
+            if let Some(d) = discrs.get(vi) {
+                vk.push(("discr", J::Int(*d as i128)));
+            }
+            vars.push(J::obj(vk));
         }
         let generics = tcx.generics_of(did);
         let (file, line, _) = self.loc(tcx.def_span(did));
